@@ -10,7 +10,7 @@ import random
 
 from . import common
 
-MODULES = ["CoapVerif.Props.C19"]
+MODULES = ["CoapVerif.Props.C19", "CoapVerif.Props.C19Wire"]
 CHUNK = 1 << 16
 
 
@@ -20,6 +20,12 @@ def norm(line):
         return line
     if f[0] == "err":
         return "err"
+    if f[0] == "sent":
+        return " ".join(f[:3])
+    if f[0] == "ok" and len(f) == 5 and (f[1] in ("-", "*") or len(f[1]) <= 6):
+        # wenc: the RFC asks for 0-3 value bytes that carry the triple (fewest bytes is a SHOULD): the judge does not compare the
+        # bytes themselves (the model comparison does)
+        return "ok * " + " ".join(f[2:])
     if f[0] == "digest":
         return "digest " + " ".join(f[2:])
     return line
@@ -47,6 +53,40 @@ def edge_lines(rng):
     for s in range(8):
         for mx in maxes:
             L.append("buf %d %d" % (s, mx))
+    return L
+
+
+def wire_lines(rng, thorough):
+    """The block option as a message carries it (Props/C19Wire.lean): EncodeBlockOption -> SetOptionUint32 -> datagram / stream
+    coder (or none) -> GetOptionUint32 -> DecodeBlockOption, and arbitrary option values of 0-4 bytes a peer may send."""
+    L = []
+    ways = [(23, "udp"), (27, "udp"), (23, "tcp"), (27, "tcp"), (23, "raw"), (27, "raw")]
+    nums = [-1, 0, 1, 15, 16, 17, 255, 256, 4095, 4096, 65535, 65536, (1 << 20) - 2, (1 << 20) - 1, 1 << 20, (1 << 20) + 1, 1 << 28, 1 << 32]
+    for i, (oid, c) in enumerate(ways):
+        for s in range(0, 9):
+            for n in nums:
+                for m in (0, 1):
+                    L.append("wenc %d %s %d %d %d" % (oid, c, s, n, m))
+        for _ in range(3000 if thorough else 400):
+            L.append("wenc %d %s %d %d %d" % (oid, c, rng.randrange(0, 8), rng.randrange(0, 1 << 20), rng.randrange(2)))
+        # a peer's value bytes: every value of at most one byte, zero-padded forms, random two and three byte values
+        L.append("wdec %d %s -" % (oid, c))
+        for b in range(256):
+            L.append("wdec %d %s %02x" % (oid, c, b))
+            L.append("wdec %d %s 00%02x" % (oid, c, b))
+            L.append("wdec %d %s 0000%02x" % (oid, c, b))
+        for _ in range(6000 if thorough else 600):
+            k = rng.choice((2, 3))
+            L.append("wdec %d %s %s" % (oid, c, "".join("%02x" % rng.randrange(256) for _ in range(k))))
+        if c == "raw":
+            # four bytes (more than the registry admits; GetOptionUint32 still reads them): refused unless zero-led
+            for _ in range(400):
+                L.append("wdec %d raw %s" % (oid, "".join("%02x" % rng.randrange(256) for _ in range(4))))
+                L.append("wdec %d raw 00%s" % (oid, "".join("%02x" % rng.randrange(256) for _ in range(3))))
+    if thorough:
+        for v in range(1 << 16):
+            L.append("wdec 23 raw %04x" % v)
+            L.append("wdec 27 udp %04x" % v)
     return L
 
 
@@ -140,7 +180,7 @@ def compare(ctx, art, lines, impl, model, spec, depth=0):
 def explore(ctx, art):
     rng = random.Random(ctx.seed)
     thorough = ctx.tier == "thorough"
-    lines = edge_lines(rng) + digest_lines(thorough)
+    lines = edge_lines(rng) + wire_lines(rng, thorough) + digest_lines(thorough)
     impl, model, spec = run_three(art, lines, par=16 if thorough else 8)
     if impl is None:
         ctx.broken.append(("correspondence", "C19 harness run failed", ""))
